@@ -161,6 +161,25 @@ register('C18', 'p_c18', 'c18',
          'Theorems in Properties/C18.v; an escaping exception other than OSError is a violation (damaged compressed streams are outside "UTF-8 Manifest text"); known findings are matched structurally.',
          ORACLE)
 
+register('C19', 'p_repo', 'c19',
+         'generated ebuild repositories: 0-4 categories (some with metadata.xml) x 0-4 packages with 0-3 ebuilds, metadata.xml, files/ with nested directories and awkward names, '
+         'ChangeLog, pre-existing package Manifests with DIST entries; eclass, licenses, profiles (nested), metadata with layout.conf, timestamps, dtd / glsa / news / xml-schema / '
+         'md5-cache/<category>; distfiles / local / packages with junk; `gemato create -p {ebuild, old-ebuild, default}` in-process with random overrides of hashes, watermark, format; '
+         'then `gemato verify` (plain loader), 0-3 edits, `gemato update -p ..`, verify again; the files written are compared with the model; non-trivial = repository',
+         'Theorems in Properties/C19.v about the policy functions regenerated from profile.py; the runs compare the tree written with an independent statement of the documented policy '
+         '(Manifest directories, default IGNOREs, entry types, hashes, sorting, compression) and with the model, and verify it with a plain loader.',
+         ORACLE)
+
+register('C20', 'p_repo', 'c20',
+         'generated repositories as in C19 with portable names, ignored directories absent, with and without pre-existing package Manifests carrying DIST entries: complete layouts '
+         '(profiles/categories, metadata/{dtd,glsa,news,xml-schema}, eclass, licenses) for utils/gen_fast_metamanifest.py, single package / eclass / licenses directories for '
+         'utils/gen_fast_manifest.py (both run as subprocesses); then gemato verify, the exactness oracle (every file once, true size, BLAKE2B+SHA512), gemato update -p ebuild on the '
+         'untouched tree (semantic and byte comparison), 0-5 edits (change, add, delete), update, verify; every step is also run through the model from the real directory state; '
+         'non-trivial = repository / directory',
+         'Theorems in Properties/C20.v (the script line format is gemato\'s own for portable names; reader round trip); the scripts are not modelled: their output is judged by '
+         'gemato verify, by an independent exactness oracle and by the model as reference verifier and updater.',
+         ORACLE + ['the scripts are run with the interpreter of the harness; multiprocessing.Pool works in the sandbox'])
+
 # ---- MANIFEST metadata per claimed property ------------------------------------------------
 NOT_APPLICABLE = {}
 META = {
@@ -282,6 +301,20 @@ META = {
               'results to mirror the code; that none is reachable from verify / update / create is decided by CLI runs whose outcome class (exit status or escaping exception) is compared with the '
               'model; reachable ones are known findings (D8, D12, D13, D21).',
    level_note='About Model/{Text,Entry,Verify}.v; cli.py:602-634 (exception to exit status) is exercised, not modelled; zlib.error/EOFError from damaged compressed Manifests are reported as an observation (not UTF-8 text).'),
+ 'C19': dict(engine='coq+cli', design_ref='DESIGN.md section 5 C19',
+   technique='Coq theorems about the translated profile policy on repository-shaped paths of arbitrary names + gemato create/update runs on generated repositories checked against an independent policy statement and the model',
+   level_text='Proved in Coq about the policy functions as translated from gemato/profile.py on this run, for arbitrary slash-free names: a Manifest is wanted wherever metadata.xml lies, in every top-level '
+              'directory with sub-directories, in eclass/licenses/metadata/profiles, in cat/pkg holding an ebuild, and not in cat/pkg/files; default IGNORE lists; option defaults (BLAKE2B+SHA512, sorted, '
+              'watermark 128, gz) that never override explicit options; old-ebuild types cat/pkg/*.ebuild as EBUILD, metadata.xml as MISC, everything below files/ as AUX and never compresses a Manifest with '
+              'EBUILD entries (C13_policy_old_ebuild). PARTIAL: that the loader applies the policy at the right places and that the output verifies is decided by the create/update runs.',
+   level_note='About Gen/Profile.v (regenerated on every run, fail-closed); metadata/md5-cache rules and "ignore lists are empty elsewhere" are exercised by the runs only; finding D8 (old-ebuild AUX typing relative to a non-package Manifest) is listed.'),
+ 'C20': dict(engine='coq+scripts', design_ref='DESIGN.md section 5 C20',
+   technique='Coq theorems tying the scripts\' line format to gemato\'s writer/reader for portable names + runs of the real scripts judged by gemato verify, an exactness oracle and the model (reference verifier and updater)',
+   level_text='Proved in Coq for all portable paths, sizes and digests: the entry line the fast generator writes (DATA/MISC/EBUILD/MANIFEST, and AUX relative to files/) equals gemato\'s own '
+              'line for the entry (C20_line_is_canonical, C20_aux_line_is_canonical), which the reader parses back to that entry (C20_reader_roundtrip = C08). PARTIAL: the scripts are Python outside '
+              'the package and are not modelled; that their Manifest trees verify, cover every file exactly once, are left unchanged by `gemato update -p ebuild` and are repaired after edits is '
+              'decided by running them on generated repositories (also through the model from the same directory states).',
+   level_note='gen_fast_manifest.py on a directory without ebuilds writes only Manifest.gz, which the reference tools do not take for a top-level Manifest: such single-directory runs are counted, not judged.'),
  'C09': dict(engine='coq+text', design_ref='DESIGN.md section 5 C09',
    technique='Coq theorems (totality of the parser result type by induction over lines; per-class rejection lemmas) + differential runs',
    level_text='Proved in Coq for every text: load returns entries, ManifestSyntaxError or ManifestUnsignedData and nothing else; accepted entries '
